@@ -64,4 +64,34 @@ theorem resumption_setting_is_stable (op : SessionOp) (w : WorldT) :
   have hc := (op_tag_added op w).1
   exact ⟨congrArg (fun k => k.2.1) hc, congrArg (fun k => k.1) hc⟩
 
+/-- **histories**: over any number of consecutive calls on one connection (1, 20 or more transfers, listings, logins and
+    simple commands in any order, returned or thrown), every data-connection handshake offers the control connection's
+    session exactly when the context was created with resumption - the first transfer and every later one alike
+    (induction over the list of calls; `C11.runAll` runs them one after the other) -/
+theorem history_offers_control_session_iff_resumption (ops : List SessionOp) (w : WorldT) :
+    ∃ evs, (runAll ops w).trace = w.trace ++ evs ∧
+      (∀ d offered ok, EvT.dataTlsHandshake d offered ok ∈ evs → offered = w.resume) ∧
+      (runAll ops w).resume = w.resume := by
+  induction ops generalizing w with
+  | nil => exact ⟨[], by simp [runAll], by simp, rfl⟩
+  | cons op ops ih =>
+    obtain ⟨e1, ht1, _⟩ := op_tag op w
+    have he1 : addedT op.run w = e1 := by
+      unfold addedT afterT
+      rw [ht1, List.drop_left]
+    have h1 := offers_control_session_iff_resumption op w
+    have hr := (resumption_setting_is_stable op w).1
+    obtain ⟨e2, ht2, h2, hr2⟩ := ih (afterT op.run w)
+    refine ⟨e1 ++ e2, ?_, ?_, ?_⟩
+    · show (runAll ops (afterT op.run w)).trace = _
+      rw [ht2]
+      show (op.run w).2.trace ++ e2 = _
+      rw [ht1, List.append_assoc]
+    · intro d offered ok hm
+      rcases List.mem_append.1 hm with hm | hm
+      · exact h1 d offered ok (he1 ▸ hm)
+      · rw [h2 d offered ok hm, hr]
+    · show (runAll ops (afterT op.run w)).resume = _
+      rw [hr2, hr]
+
 end Ftp.Props.C18
